@@ -339,13 +339,12 @@ impl Number {
             },
             Number::Float(num) => num.powf(exp as f64).into(),
             Number::BigInt(lhs) => lhs.pow(exp).into(),
-            Number::Rational(num) => {
-                if exp.to_i32().is_some() {
-                    num.pow(exp as i32).into()
-                } else {
-                    num.to_f64().unwrap_or(f64::NAN).powf(exp as f64).into()
-                }
-            }
+            Number::Rational(num) if num.is_integer() => Number::Fixnum(*num.numer() as i64).pow(exp),
+            // Ratio::pow multiplies unchecked
+            Number::Rational(num) => match (num.numer().checked_pow(exp), num.denom().checked_pow(exp)) {
+                (Some(numer), Some(denom)) => Rational32::new_raw(numer, denom).into(),
+                _ => num.to_f64().unwrap_or(f64::NAN).powf(exp as f64).into(),
+            },
         }
     }
 }
